@@ -47,7 +47,7 @@ MANIFEST = {
         note=_COMMON_NOTE, ref="§5 C06, §7 F6 F12, §9.1"),
     "C08": dict(
         technique="Lean 4 proof: accounting invariants on the backend model for every schedule (discarded + blocked = reported + pending counters; ret=1 iff appended, ret=0 iff counted; control requests retried, never counted; a reclaimed context has a zero counter under the extracted F24 flag); witnesses for F17/F24 in all flag combinations; differential correspondence on the BoundedDropping build + drop-count oracle",
-        text=_SCOPE + "Proved: C08_accounting (sum of discarded statements and blocking episodes = reported through the notifier + sum of the per-context counters, over all contexts ever created), C08_dropped_equals_reported_plus_pending (dropping queue), C08_log_call_outcome (a log call returns true iff the statement is appended to the accepted history and no counter moves, false iff nothing is appended and the counter and the discarded count grow by one), C08_control_request_retried / _retry_reattempts / _control_kinds (flush, backtrace init/flush, removal requests are parked and re-attempted, never counted), C08_removed_context_reported (removed => counter 0 in every reachable state, under the extracted flag of the F24 repair), delivered statements intact and in order via C03. Witnesses by `decide`: the F17 and F24 schedules lose a count for the unrepaired flag values and report it for the repaired ones. Never both: C08_dropped_call_id_unplaced, C08_unplaced_forever, C08_discarded_never_written (the id of a refused call is in no accepted history or parked call, stays so through every schedule, and is never written at any sink). Quiescence: C08_cache_covers_registry, C08_idle_pass_drains_counters, C08_quiescent_all_reported (from a freshly started system, after ANY schedule followed by one idle poll with nothing injected, every counter of every context ever created is 0 and the discarded statements equal the reported ones). The counter protocol itself (fetch_add against load + exchange(0)) is one atomic step in this model; at atomic-access granularity it is proved separately for every interleaving and stale load (Ctr.C08_counter_conservation: sum of returned values + newest counter = increments; C08_counter_final_pass; witnesses for load+store and for a non-atomic increment) and tied to the real ThreadContext / BackendWorker::_check_failure_counter under the N-thread atomic shim (harness h1_reg, `driver reg`).",
+        text=_SCOPE + "Proved: C08_accounting (sum of discarded statements and blocking episodes = reported through the notifier + sum of the per-context counters, over all contexts ever created), C08_dropped_equals_reported_plus_pending (dropping queue), C08_log_call_outcome (a log call returns true iff the statement is appended to the accepted history and no counter moves, false iff nothing is appended and the counter and the discarded count grow by one), C08_control_request_retried / _retry_reattempts / _control_kinds (flush, backtrace init/flush, removal requests are parked and re-attempted, never counted), C08_removed_context_reported (removed => counter 0 in every reachable state, under the extracted flag of the F24 repair), delivered statements intact and in order via C03. Witnesses by `decide`: the F17 and F24 schedules lose a count for the unrepaired flag values and report it for the repaired ones. Never both: C08_dropped_call_id_unplaced, C08_unplaced_forever, C08_discarded_never_written (the id of a refused call is in no accepted history or parked call, stays so through every schedule, and is never written at any sink). Quiescence: C08_cache_covers_registry, C08_idle_pass_drains_counters, C08_quiescent_all_reported (from a freshly started system, after ANY schedule followed by one idle poll with nothing injected, every counter of every context ever created is 0 and the discarded statements equal the reported ones). The counter protocol itself (fetch_add against load + exchange(0)) is one atomic step in this model; at atomic-access granularity it is proved separately for every interleaving and stale load (Ctr.C08_counter_conservation: sum of returned values + newest counter = increments; C08_counter_final_pass; witnesses for load+store and for a non-atomic increment) and tied to the real ThreadContext / BackendWorker::_check_failure_counter under the N-thread atomic shim (harness h1_reg, `driver reg`). Unbounded queue types are outside this property (its clause is about bounded dropping queues): _check_failure_counter skips such contexts and the clean-up ignores their counter, so a refusal at unbounded_queue_max_capacity is counted and never reported; stated as a theorem of the unbounded-queue machine (C08U_counter_never_reset: the counter always equals the refused calls, every operation list) and visible in the H2 correspondence of the two unbounded builds (no n:dropped / n:blocked line ever appears).",
         note=_COMMON_NOTE, ref="§5 C08, §7 F17 F24, §9.1"),
     "C10": dict(
         technique="Lean 4 proof: fault locality on the backend model with arbitrary write_log / flush_sink fault schedules for every schedule (conservation and at-most-once survive, the event is popped on every path, a write fault splits the sink list at the first accepting thrower and touches nothing else, a flush visits every sink and raises its flag); differential correspondence with throwing recording sinks",
